@@ -345,7 +345,10 @@ class Run:
             if which == 'vle' and p in ('s', 'S'): relabel = True
             if which == 'lle' and p not in ('l', 'L'): relabel = True
             if which == 'sle' and p not in ('l', 's'): relabel = True
-            level = 'totals' if relabel else 'family'
+            # where the accessor does not relabel by design the phase-set rule applies in full: the material stays
+            # under its exact label when that label is in the accessor's phase set (lle on 'l'/'L', sle on 's'/'l',
+            # vle on 'g'/'l') and moves to the case twin only when the exact label is absent ('L'.vle -> 'l')
+            level = 'totals' if relabel else 'exact'
             if which == 'vle' and p == 'S' and 'F3' in self.avoid:
                 ctx.cell('avoided:vle-on-SOLID-stream'); which = 'sle'; need = ['l', 's']; relabel = True; level = 'totals'
         region = f'{which},kind={src},label={m.labels[0] if src == "S" else "-"}'
@@ -364,10 +367,16 @@ class Run:
             m.set_multi(labels, rows)
             self.check_state('op.solver', region)
         else:
+            if level == 'exact':
+                labels, rows = M.convert_rows(m.labels, m.rows, need, m.pk.n)
+                m.set_multi(labels, rows)
+                ctx.cell('solver:single-exact')
             self.check_state('op.solver', region, level=level)
             if type(s) is not tmo.MultiStream or any(q not in s.phases for q in need):
                 ctx.fail(f'op.solver|{region}|phases', f'after .{which}: {type(s).__name__} phases {vs.phases_of(s)}')
-            self.resync_after_family_op(None)
+            if level != 'exact':
+                ctx.cell('solver:single-relabel-by-design')
+                self.resync_after_family_op(None)
         self.hist.append(['solver', which, src])
 
     def pick_phase_for_view(self):
